@@ -227,6 +227,53 @@ func repLimbBytes(r *lib.Rng, n int, c uint64, top byte) []byte {
 	return b
 }
 
+// fourqCoord draws one GF(2^127-1) coordinate (16 bytes, little endian) at or
+// next to the boundaries of the field: 0..3, p-1..p-4, 2^126 +-1, 2^64 +-1,
+// (p-1)/2 +-1, or limb-edge / repeated-limb / random values below 2^127.
+func fourqCoord(r *lib.Rng) []byte {
+	b := make([]byte, 16)
+	put := func(lo, hi uint64) {
+		for j := 0; j < 8; j++ {
+			b[j] = byte(lo >> (8 * j))
+			b[8+j] = byte(hi >> (8 * j))
+		}
+	}
+	d := uint64(r.Intn(4))
+	switch r.Intn(10) {
+	case 0:
+		put(d, 0)
+	case 1, 2: // p-1-d
+		put(^uint64(0)-1-d, 1<<63-1)
+	case 3:
+		put(d, 1<<62)
+	case 4:
+		put(^uint64(0)-d, 1<<62-1)
+	case 5:
+		put(^uint64(0)-d, 0)
+	case 6:
+		put(d, 1)
+	case 7: // (p-1)/2 +- d
+		put(^uint64(0)-d, 1<<62-1+uint64(r.Intn(2))<<62)
+	case 8:
+		copy(b, repLimbBytes(r, 16, 1, 0x7f))
+	default:
+		copy(b, r.EdgeBytes(16, 1))
+		b[15] &= 0x7f
+	}
+	return b
+}
+
+// fourqEncoding is a 32-byte point encoding y0 || y1 (+ sign bit of x) whose
+// coordinates come from fourqCoord.
+func fourqEncoding(r *lib.Rng) []byte {
+	b := append(fourqCoord(r), fourqCoord(r)...)
+	if r.Intn(3) == 0 { // equal coordinates
+		copy(b[16:], b[:16])
+	}
+	b[31] |= byte(r.Intn(2)) << 7
+	return b
+}
+
 // unaligned returns a copy of b that starts at an odd address offset inside a
 // larger allocation (exercises the unaligned xor paths).
 func unaligned(b []byte, off int) []byte {
